@@ -288,6 +288,7 @@ def run(chk):
                        'unsupported 5-node element), node/element sets (valid, reversed, not a subset), nodal / element-nodal / unknown variables in 2 states, including every failing call; each reachable '
                        'state (= one history) is executed on a fresh VMAPExport file and the file is projected through VMAPImport (+ raw MYSIZE counters) and compared with the specification state, '
                        'values being distinguishable doubles per (mesh, row, column). Non-trivial = history with a failing call or with a variable.')
+    chk.cov['rule'] += ' Variable kinds incl. the known variable from a frame lacking its columns (write-step failure) and with explicit other column names; element sets in descending order, row order of filtered meshes, chained filters; prefix instance: two geometries already in the file plus three calls (seeded sample).'
     chk.cov['exhaustive'] = True
     chk.assumptions += ['ids within int32; 2-D meshes carry a constant z column (frames without a z column: see known findings)']
 
